@@ -8,7 +8,7 @@
           B <idx>:<hex>             bytes idx*w.. replaced by <hex> (one block or the tail, other content)
                                                                            -> "rel diff" demanded
           Z <j>                     j zero bytes appended                  -> "rel diff" demanded when the
-                                    extension stays inside one block and the theorems cover it
+                                    extension stays inside one block (known finding C13-J4: see below)
    output: h=<decimal digest>[ rel same|diff]
    M line: the code-shaped model (DigestModel) run on a memory in which the buffer sits at address
            4096+off and every other address reads 0xAA.
@@ -106,12 +106,13 @@ let () =
              | _ -> raise Bad)
           | "Z" -> let j = int_of_string arg in
             if j <= 0 || j > 64 || aligned fn then raise Bad;
+            (* the property text: zero-extension within a block always changes the result.  Proved:
+               length_sensitive32, length_sensitive64, length_sensitive64_boundary_partial; the remaining
+               class (64-bit, n mod 8 = 0, j = 4) is demanded too -- the one known collision there is the
+               recorded finding C13-J4 (length_sensitive64_boundary_refuted).  Extensions that cross a
+               block boundary are outside the property: nothing demanded. *)
             let same_block = n / w = (n + j) / w in
-            let covered =
-              if w = 4 then same_block                         (* length_sensitive32 *)
-              else same_block && (n mod 8 <> 0                 (* length_sensitive64 *)
-                                  || j mod 4 <> 0) in          (* length_sensitive64_boundary_partial *)
-            Some (seed, bytes @ List.init j (fun _ -> 0), off), (if covered then "diff" else "*")
+            Some (seed, bytes @ List.init j (fun _ -> 0), off), (if same_block then "diff" else "*")
           | _ -> raise Bad in
         (match second with
          | None -> Printf.printf "M h=%s\nS h=%s\n" (string_of_z m1) (string_of_z s1)
